@@ -193,7 +193,7 @@ func genScenario(t *rapid.T) *scenario {
 	case "lib":
 		sc.OpenReply = rapid.SampledFrom([]string{"result", "result", "result", "result", "result", "result", "result", "result",
 			"error:cancel/item-not-found", "error:cancel/not-acceptable", "error:modify/resource-constraint",
-			"error:cancel/service-unavailable", "error:auth/forbidden", "none"}).Draw(t, "openreply")
+			"error:cancel/service-unavailable", "error:auth/forbidden", "error-bare", "error-echo", "none"}).Draw(t, "openreply")
 	case "peer":
 		sc.Listen = rapid.IntRange(0, 9).Draw(t, "listen") != 0
 	}
